@@ -20,15 +20,24 @@ type vSink struct {
 	kk    int
 	got   byte
 	have  bool
+	limit int // < 0: takes everything; otherwise fails (short write + error) once limit bytes have been taken
 }
 
+var vErrSink = io.ErrClosedPipe
+
 func (s *vSink) Write(p []byte) (int, error) {
-	if s.total <= s.kk && s.kk < s.total+len(p) {
+	take := len(p)
+	var err error
+	if s.limit >= 0 && s.total+take > s.limit {
+		take = s.limit - s.total
+		err = vErrSink
+	}
+	if s.total <= s.kk && s.kk < s.total+take {
 		s.got = p[s.kk-s.total]
 		s.have = true
 	}
-	s.total += len(p)
-	return len(p), nil
+	s.total += take
+	return take, err
 }
 
 type vInbound struct {
@@ -107,14 +116,23 @@ func (x *vInbound) onTraffic(c *conn) Action {
 		}
 		vAssert("C01.discard.count", m == exp)
 		x.consumed += exp
-	case 4: // WriteTo a writer that takes everything
-		s := &vSink{kk: x.k - x.consumed}
+	case 4: // WriteTo a writer that takes everything, or one that fails after a symbolic number of bytes
+		lim := vNondetInt("h.sink.limit")
+		vAssume(-1 <= lim && lim <= vMaxLen())
+		s := &vSink{kk: x.k - x.consumed, limit: lim}
 		n, err := c.WriteTo(s)
-		vAssert("C01.writeto.count", err == nil && n == int64(total) && s.total == total)
-		if x.consumed <= x.k && x.k < x.consumed+total {
+		moved := total
+		if lim >= 0 && lim < total {
+			moved = lim
+			vAssert("C01.writeto.failing_writer_reports_its_error", err != nil)
+		} else {
+			vAssert("C01.writeto.no_error", err == nil)
+		}
+		vAssert("C01.writeto.count", n == int64(moved) && s.total == moved)
+		if x.consumed <= x.k && x.k < x.consumed+moved {
 			vAssert("C01.writeto.bytes_are_stream_prefix", s.have && s.got == x.wantByte)
 		}
-		x.consumed += total
+		x.consumed += moved
 	}
 	vAssert("C01.consumed_plus_buffered_is_delivered", x.consumed+c.InboundBuffered() == x.li+roff)
 	return None
